@@ -1,1 +1,268 @@
-import EventppVerif.Q.Machine
+import EventppVerif.Q.DispAux
+/-
+  Property C12 — Filters and canContinueInvoking gate every dispatch, synchronous or queued.
+
+  "With MixinFilter, every dispatch - direct or performed by a queue's processing call - first runs
+  the filters in the order they were added: each filter receives the arguments as lvalues, its
+  modifications are seen by later filters and by all listeners, and the first filter returning false
+  stops the remaining filters and all listeners of that dispatch only. … removed filters never run
+  again."
+
+  Model: Q/Machine.lean.  `directDispatch` = `nextFilter` (filters over a snapshot of the filter
+  list, skipping removed ones; a filter returning `true` rewrites the argument by
+  `b.rewrite cur arg` for everything that follows; `false` ends the dispatch) then `nextListener`.
+  Specification: `dispatchCalls` (Q/DispAux.lean), a pure function.
+
+  The `conditionalFunctor` / `argumentAdapter` utilities are tiny self-contained models at the end.
+-/
+namespace Evp.Q
+open Evp QCfg
+
+/-! ### the specification, spelled out -/
+
+/-- no filter (left): the listeners are called in list order with the current argument -/
+theorem C12_spec_nil (listeners : SList) (verdict : Cb → Nat → Bool) (rw : Cb → Nat → Nat)
+    (key arg : Nat) :
+    dispatchCalls [] listeners verdict rw key arg =
+      listeners.map (fun e => ⟨.listener, key, e.id, e.cb, arg⟩) := rfl
+
+/-- the first filter is called with the current argument; if it returns `true` the dispatch goes on
+    with the remaining filters and the argument as rewritten by it -/
+theorem C12_spec_pass (f : Entry) (fs listeners : SList) (verdict : Cb → Nat → Bool)
+    (rw : Cb → Nat → Nat) (key arg : Nat) (h : verdict f.cb arg = true) :
+    dispatchCalls (f :: fs) listeners verdict rw key arg =
+      ⟨.filter, key, f.id, f.cb, arg⟩ :: dispatchCalls fs listeners verdict rw key (rw f.cb arg) := by
+  simp [dispatchCalls, callsFrom, h]
+
+/-- … if it returns `false` nothing else of this dispatch is called -/
+theorem C12_spec_block (f : Entry) (fs listeners : SList) (verdict : Cb → Nat → Bool)
+    (rw : Cb → Nat → Nat) (key arg : Nat) (h : verdict f.cb arg = false) :
+    dispatchCalls (f :: fs) listeners verdict rw key arg = [⟨.filter, key, f.id, f.cb, arg⟩] := by
+  simp [dispatchCalls, callsFrom, h]
+
+/-! ### the machine implements it -/
+
+/-- **C12 (a dispatch is `dispatchCalls`).**  Let the filters and listeners return immediately (a
+    filter's verdict being a function `verdict` of callback and argument).  From any configuration
+    that is about to execute `dispatch key arg` there is a number of steps after which the program
+    continues (`k .unit`) on the same stack, the listener lists, the filter list and the queue are
+    unchanged, and the trace has gained exactly the calls `dispatchCalls …` — the filters in the
+    order they were added, each seeing the argument as modified by the earlier ones, stopping at the
+    first `false`; otherwise all listeners, with the final argument — followed by the result of
+    the command.  (The trace is kept newest first, hence the `reverse`.) -/
+theorem C12_dispatch_flat (b : QBeh) (verdict : Cb → Nat → Bool) (hb : Flat b verdict) (c : QCfg)
+    (key arg : Nat) (k : QRes → QProg) (rest : List QFrame)
+    (hst : c.stack = .prog (.op (.dispatch key arg) k) :: rest) :
+    ∃ n, (runN b n c).1.stack = .prog (k .unit) :: rest ∧
+      (runN b n c).1.lists = c.lists ∧ (runN b n c).1.filters = c.filters ∧
+      (runN b n c).1.queue = c.queue ∧
+      (runN b n c).1.trace =
+        .res .unit ::
+          ((dispatchCalls c.filters (c.lists key) verdict b.rewrite key arg).map QEv.call).reverse
+            ++ c.trace := by
+  obtain ⟨n, hn⟩ := dispatch_flat hb c key arg k rest hst
+  exact ⟨n, by rw [hn], by rw [hn], by rw [hn], by rw [hn], by rw [hn]⟩
+
+/-- **C12 (a queued event is dispatched by the same function), modes `process`/`processOne`.**
+    Examining the head `s` (holding event `e`) of a processing call's `todo` *is*
+    `nextFilter … e.key e.arg c.filters …`: the filter phase over the current filter list, then the
+    listeners of `e.key` — on top of the processing-call frame. -/
+theorem C12_queued_same (b : QBeh) (c : QCfg) (mode : PMode) (hm : mode = .all ∨ mode = .one)
+    (s : Slot) (e : QEvent) (rest kept idle : List Slot) (below : List QFrame)
+    (hev : s.ev = some e) :
+    procNext b c mode (s :: rest) kept idle below =
+      nextFilter b c e.key e.arg c.filters (.proc mode (s :: rest) kept idle .disp :: below) := by
+  rcases hm with rfl | rfl <;> simp [procNext, hev]
+
+/-- … and so is, for `processIf`, an event whose predicate returned `true` and, for `processUntil`,
+    one whose predicate returned `false`. -/
+theorem C12_queued_same_pred (b : QBeh) (c : QCfg) (mode : PMode) (v : Bool)
+    (hm : (∃ p, mode = .ifp p ∧ v = true) ∨ (∃ p, mode = .untilp p ∧ v = false))
+    (s : Slot) (e : QEvent) (rest kept idle : List Slot) (below : List QFrame) (hev : s.ev = some e)
+    (hst : c.stack = .prog (.ret v) :: .proc mode (s :: rest) kept idle .pred :: below) :
+    step b c = some
+      (nextFilter b c e.key e.arg c.filters (.proc mode (s :: rest) kept idle .disp :: below)) := by
+  unfold step
+  rw [hst]
+  rcases hm with ⟨p, rfl, rfl⟩ | ⟨p, rfl, rfl⟩ <;> simp [hev]
+
+/-- … exactly what the machine does for the command `dispatch e.key e.arg` — on top of the waiting
+    program. -/
+theorem C12_direct_same (b : QBeh) (c : QCfg) (key arg : Nat) (k : QRes → QProg)
+    (rest : List QFrame) (hst : c.stack = .prog (.op (.dispatch key arg) k) :: rest) :
+    step b c = some (nextFilter b c key arg c.filters (.wait k :: rest)) :=
+  step_dispatch hst
+
+/-- … and the two differ in nothing but the frame they return to: `nextFilter` pushes frames and
+    extends the trace independently of what is below. -/
+theorem C12_same_up_to_below (b : QBeh) (c : QCfg) (key arg : Nat) (snap : List Entry) :
+    ∃ fs tr, ∀ below,
+      nextFilter b c key arg snap below = { c with trace := tr, stack := fs ++ below } :=
+  nextFilter_below b c key arg snap
+
+/-- **C12 (modifications are seen by later filters and by the listeners), any behaviour.**  When
+    the running filter `cur` returns `true`, the rest of the dispatch — the remaining filters and
+    then the listeners — runs with the argument as rewritten by `cur`. -/
+theorem C12_rewrite_propagates (b : QBeh) (c : QCfg) (key arg : Nat) (rest : List Entry) (cur : Cb)
+    (below : List QFrame) (hst : c.stack = .prog (.ret true) :: .filt key arg rest cur :: below) :
+    step b c = some (nextFilter b c key (b.rewrite cur arg) rest below) :=
+  step_filt_true hst
+
+/-- **C12 (a veto stops this dispatch only), any behaviour.**  When the running filter returns
+    `false`, the next configuration is "dispatch ended" (`.done`): no further filter and no listener
+    of this dispatch is called (the trace is unchanged), and the listener lists, the filter list and
+    the queue are untouched. -/
+theorem C12_block_only_this (b : QBeh) (c : QCfg) (key arg : Nat) (rest : List Entry) (cur : Cb)
+    (below : List QFrame) (hst : c.stack = .prog (.ret false) :: .filt key arg rest cur :: below) :
+    ∃ c', step b c = some c' ∧ c'.stack = .done :: below ∧ c'.trace = c.trace ∧
+      c'.lists = c.lists ∧ c'.filters = c.filters ∧ c'.queue = c.queue :=
+  ⟨_, step_filt_false hst, rfl, rfl, rfl, rfl, rfl⟩
+
+/-- … a vetoed direct dispatch then simply returns to the program that issued it … -/
+theorem C12_block_direct (b : QBeh) (c : QCfg) (key arg : Nat) (rest : List Entry) (cur : Cb)
+    (k : QRes → QProg) (below : List QFrame)
+    (hst : c.stack = .prog (.ret false) :: .filt key arg rest cur :: .wait k :: below) :
+    (runN b 2 c).1 = { c with stack := .prog (k .unit) :: below, trace := .res .unit :: c.trace } := by
+  rw [runN_succ_some (step_filt_false hst), runN_succ_some (step_done rfl)]
+  rfl
+
+/-- … and a vetoed dispatch of a queued event consumes that event and lets the processing call go
+    on with the next one (`rest'`). -/
+theorem C12_block_queued (b : QBeh) (c : QCfg) (key arg : Nat) (rest : List Entry) (cur : Cb)
+    (mode : PMode) (s : Slot) (e : QEvent) (rest' kept idle : List Slot) (below : List QFrame)
+    (hev : s.ev = some e)
+    (hst : c.stack = .prog (.ret false) :: .filt key arg rest cur ::
+      .proc mode (s :: rest') kept idle .disp :: below) :
+    (runN b 2 c).1 =
+      procNext b ({ c with stack := .done :: .proc mode (s :: rest') kept idle .disp :: below }.push
+        (.consumed e.seq 0)) mode rest' kept (idle ++ [{ s with ev := none }]) below := by
+  rw [runN_succ_some (step_filt_false hst), runN_succ_some (step_done rfl)]
+  simp [runN, endDispatch, hev]
+
+/-- **C12 (removed filters never run again): a removed filter is skipped.**  If the next filter of
+    the snapshot is no longer in the filter list (it was removed, e.g. by an earlier filter or
+    listener, or by itself), `nextFilter` passes over it without calling it. -/
+theorem C12_removed_filter_skipped (b : QBeh) (c : QCfg) (key arg : Nat) (e : Entry)
+    (es : List Entry) (below : List QFrame) (hp : c.filters.present e.id = false) :
+    nextFilter b c key arg (e :: es) below = nextFilter b c key arg es below :=
+  nextFilter_cons_absent b c key arg e es below hp
+
+/-- **C12 (removed filters never run again): every call is of a current filter.**  In every step of
+    every run, with every behaviour: every filter call recorded by the step is of a handle that is
+    in the filter list at that moment, and every listener call is of a handle that is in the list
+    of the call's event at that moment (`CallOK`). -/
+theorem C12_calls_are_current (b : QBeh) (c c' : QCfg) (hs : step b c = some c') :
+    ∃ new, c'.trace = new ++ c.trace ∧
+      ∀ call, QEv.call call ∈ new →
+        (call.kind = .filter → c.filters.present call.h = true) ∧
+        (call.kind = .listener → (c.lists call.key).present call.h = true) := by
+  obtain ⟨new, hn, hc⟩ := step_NC hs
+  refine ⟨new, hn, ?_⟩
+  intro call hm
+  have := hc call hm
+  unfold CallOK at this
+  constructor <;> intro hk <;> rw [hk] at this <;> exact this
+
+/-! ### `conditionalFunctor` and `argumentAdapter` (utilities) — self-contained models
+
+These two laws are close to the definitions: the utilities are one-line wrappers, and the models
+below are those lines. -/
+
+/-- `conditionalFunctor(f, cond)`: calls `f` iff `cond` accepts the arguments. `none` = not called. -/
+def conditionalFunctor {α β : Type} (cond : α → Bool) (f : α → β) (args : α) : Option β :=
+  if cond args then some (f args) else none
+
+/-- `argumentAdapter<Sig>(f)`: casts the arguments, then calls `f`. -/
+def argumentAdapter {α α' β : Type} (cast : α → α') (f : α' → β) (args : α) : β :=
+  f (cast args)
+
+/-- the wrapped callable is called iff the condition holds … -/
+theorem C12_conditional_called {α β : Type} (cond : α → Bool) (f : α → β) (args : α) :
+    (conditionalFunctor cond f args).isSome = cond args := by
+  unfold conditionalFunctor; split <;> simp_all
+
+/-- … and then with the very same arguments (the result is `f args`). -/
+theorem C12_conditional {α β : Type} (cond : α → Bool) (f : α → β) (args : α) (r : β) :
+    conditionalFunctor cond f args = some r ↔ cond args = true ∧ f args = r := by
+  unfold conditionalFunctor; split <;> simp_all
+
+/-- the adapted callable is called exactly once, with the cast arguments -/
+theorem C12_adapter {α α' β : Type} (cast : α → α') (f : α' → β) (args : α) :
+    argumentAdapter cast f args = f (cast args) := rfl
+
+/-- adapting composes: an adapter around an adapter is the adapter of the composed cast -/
+theorem C12_adapter_comp {α α' α'' β : Type} (cast : α → α') (cast' : α' → α'') (f : α'' → β) :
+    argumentAdapter cast (argumentAdapter cast' f) = argumentAdapter (cast' ∘ cast) f := rfl
+
+/-! ### non-vacuity -/
+
+namespace C12ex
+
+def seqP : List QCmd → QProg
+  | [] => .ret true
+  | c :: r => .op c (fun _ => seqP r)
+
+def verdict (cb : Cb) (arg : Nat) : Bool := if cb = 101 then decide (arg ≤ 10) else true
+
+/-- filter 100 adds 5 to the argument and passes; filter 101 vetoes when the argument exceeds 10;
+    listener 7 returns -/
+def beh : QBeh where
+  run := fun call _ => match call.kind with
+    | .filter => .ret (verdict call.cb call.arg)
+    | _ => .ret true
+  rewrite := fun cb a => if cb = 100 then a + 5 else a
+
+theorem beh_flat : Flat beh verdict :=
+  ⟨fun call _ h => by simp [beh, h], fun call _ h => ⟨true, by simp [beh, h]⟩⟩
+
+def prog : QProg :=
+  seqP [.addFilter 100, .addFilter 101, .listen 0 7, .dispatch 0 3, .dispatch 0 7]
+
+def c0 : QCfg := { stack := [.prog prog] }
+
+def calls (tr : List QEv) : List QCall := tr.reverse.filterMap (fun | .call c => some c | _ => none)
+
+/-- dispatch 3: filter 100 sees 3, filter 101 sees 8 and passes, the listener sees 8;
+    dispatch 7: filter 100 sees 7, filter 101 sees 12 and vetoes, the listener is not called. -/
+example : calls (runN beh 40 c0).1.trace =
+    [⟨.filter, 0, 0, 100, 3⟩, ⟨.filter, 0, 1, 101, 8⟩, ⟨.listener, 0, 2, 7, 8⟩,
+     ⟨.filter, 0, 0, 100, 7⟩, ⟨.filter, 0, 1, 101, 12⟩] ∧ (runN beh 40 c0).2 = true := by
+  decide +kernel
+
+/-- the specification says the same -/
+example : dispatchCalls [⟨0, 100⟩, ⟨1, 101⟩] [⟨2, 7⟩] verdict beh.rewrite 0 3 =
+      [⟨.filter, 0, 0, 100, 3⟩, ⟨.filter, 0, 1, 101, 8⟩, ⟨.listener, 0, 2, 7, 8⟩] ∧
+    dispatchCalls [⟨0, 100⟩, ⟨1, 101⟩] [⟨2, 7⟩] verdict beh.rewrite 0 7 =
+      [⟨.filter, 0, 0, 100, 7⟩, ⟨.filter, 0, 1, 101, 12⟩] := by
+  decide +kernel
+
+/-- the hypotheses of `C12_dispatch_flat` hold at step 3 of this run -/
+example : ∃ k rest, (runN beh 3 c0).1.stack = .prog (.op (.dispatch 0 3) k) :: rest ∧
+    (runN beh 3 c0).1.filters = [⟨0, 100⟩, ⟨1, 101⟩] := ⟨_, _, rfl, rfl⟩
+
+/-- queued: the same gate.  The vetoed event (argument 7) is consumed without reaching the listener
+    and the processing call goes on with the next event (argument 1 → 6). -/
+example : calls (runN beh 60
+      { stack := [.prog (seqP [.addFilter 100, .addFilter 101, .listen 0 7,
+                               .enqueue 0 3, .enqueue 0 7, .enqueue 0 1, .process])] }).1.trace =
+    [⟨.filter, 0, 0, 100, 3⟩, ⟨.filter, 0, 1, 101, 8⟩, ⟨.listener, 0, 2, 7, 8⟩,
+     ⟨.filter, 0, 0, 100, 7⟩, ⟨.filter, 0, 1, 101, 12⟩,
+     ⟨.filter, 0, 0, 100, 1⟩, ⟨.filter, 0, 1, 101, 6⟩, ⟨.listener, 0, 2, 7, 6⟩] := by
+  decide +kernel
+
+/-- a removed filter never runs again: filter 101 (handle 1) is removed between the dispatches, so
+    the second dispatch (argument 7 → 12) now reaches the listener -/
+example : calls (runN beh 60
+      { stack := [.prog (seqP [.addFilter 100, .addFilter 101, .listen 0 7,
+                               .dispatch 0 7, .removeFilter 1, .dispatch 0 7])] }).1.trace =
+    [⟨.filter, 0, 0, 100, 7⟩, ⟨.filter, 0, 1, 101, 12⟩,
+     ⟨.filter, 0, 0, 100, 7⟩, ⟨.listener, 0, 2, 7, 12⟩] := by
+  decide +kernel
+
+example : conditionalFunctor (fun a : Nat => decide (a > 2)) (· + 1) 5 = some 6 ∧
+    conditionalFunctor (fun a : Nat => decide (a > 2)) (· + 1) 1 = none ∧
+    argumentAdapter (fun a : Nat => (a, a)) (fun p : Nat × Nat => p.1 + p.2) 4 = 8 := by
+  decide
+
+end C12ex
+end Evp.Q
